@@ -132,6 +132,26 @@ func genRobust(t *rapid.T, proto string, envs map[string]*wire.GenEnv, amplify b
 				}
 				continue
 			}
+			if kind >= 5 && kind <= 7 && rapid.IntRange(0, 7).Draw(t, "tinysets") == 0 {
+				// as many minimal sets as fit: every one costs the decoder an error (unknown template, reserved id) or a
+				// skip; whatever is kept per set must stay proportional to the octets, not to their square
+				var m wire.Msg
+				env.GenHeader(t, &m)
+				nt := rapid.SampledFrom([]int{40, 100, 200, 360}).Draw(t, "ntiny")
+				if big {
+					nt = rapid.SampledFrom([]int{360, 2000, 8000, 16000}).Draw(t, "ntinybig")
+				}
+				bodyLen := rapid.SampledFrom([]int{0, 0, 1, 4}).Draw(t, "tinybody")
+				for i := 0; i < nt; i++ {
+					id := uint16(256 + i%500)
+					if rapid.IntRange(0, 9).Draw(t, "tinyreserved") == 0 {
+						id = uint16(4 + i%250)
+					}
+					m.Sets = append(m.Sets, wire.Set{Kind: "raw", RawID: id, RawBody: make([]byte, bodyLen)})
+				}
+				add(exp, m.Bytes(), "weird-many-tiny-sets")
+				continue
+			}
 			if kind >= 5 && kind <= 7 {
 				// adversarially structured message
 				var m wire.Msg
